@@ -479,6 +479,11 @@ def cli_multi_xdev(ctx, d, root, case, lp, listed, ignores, extra):
     for cmd in ('verify', 'update'):
         for order in ([root], [clean, root], [root, clean], [clean, clean, root]):
             argv = ['gemato', cmd, '-x']
+            if len(order) % 2 == 0:
+                # other options next to it (in either order) do not switch it off
+                argv = ['gemato', cmd, '-j', '2', '-x'] if len(order) == 2 else \
+                    ['gemato', cmd, '-x', '-j', '3']
+                ctx.count('xdev_cli_with_jobs')
             if cmd == 'update':
                 argv += ['--hashes', 'SHA256']
             argv += order
